@@ -216,7 +216,76 @@ def wide_case(case):
     return {"ok": True, "nt": bits != bits[::-1], "ops": 4 + n_exec, "out": "n%d-k%s" % (n, "few" if k <= 2 ** n else "many"), "extra": {"sampling_executions": n_exec}}
 
 
-FUNCS = {"views": views_case, "real_rng": real_rng_case, "wide": wide_case}
+def symbolic_case(case):
+    """{'n': n, 'q': index tuple of a controlled RX(theta), 'pre': qubits flipped first}: the state vector of a circuit with a free symbol, bound afterwards,
+    names the same qubits as the circuit bound first (and as the reference)"""
+    import sympy
+    from orquestra.quantum import circuits as C
+    from orquestra.quantum.runners.symbolic_simulator import SymbolicSimulator
+    n, q = case["n"], case["q"]
+    th = sympy.Symbol("theta")
+    gate = C.RX(th).controlled(len(q) - 1)
+    ops = [C.X(p) for p in case["pre"]] + [gate(*q)] + [C.RY(ANG[0])(q[-1])]
+    circ = C.Circuit(ops, n_qubits=n)
+    k = 0
+    for v in (0.9, float(np.pi)):
+        ref_ops = [{"gate": G("X"), "q": [p]} for p in case["pre"]] + [{"gate": {"w": "controlled", "k": len(q) - 1, "of": G("RX", v)}, "q": list(q)}, {"gate": G("RY", ANG[0]), "q": [q[-1]]}]
+        psi = ref_unitary(ref_ops, n)[:, 0]
+        wf = SymbolicSimulator().get_wavefunction(circ)
+        late = np.asarray(wf.bind({th: v}).amplitudes, dtype=complex).reshape(-1)
+        early = np.asarray(SymbolicSimulator().get_wavefunction(circ.bind({th: v})).amplitudes, dtype=complex).reshape(-1)
+        k += 2
+        if not np.allclose(late, psi, atol=TOL):
+            return {"ok": False, "msg": "symbolic state vector bound at theta=%s differs from the reference state (gate on qubits %s of %d)" % (v, q, n), "expected": str(np.round(psi, 4).tolist()),
+                    "observed": str(np.round(late, 4).tolist()), "sig": "symbolic:late-bind", "ops": k}
+        if not np.allclose(early, psi, atol=TOL):
+            return {"ok": False, "msg": "state of the circuit bound first differs from the reference", "sig": "symbolic:early-bind", "ops": k}
+    return {"ok": True, "nt": list(q) != sorted(q) or q[-1] - q[0] != len(q) - 1, "ops": k, "out": "n%d" % n}
+
+
+def many_case(case):
+    """{'ops', 'n', 'samples': k, 'rng': 'script'|seed}: large sample counts (a count-dependent code path must still name the same qubits): every shot lies in
+    the support, count strings are the tuples written left to right, the empirical distribution and measured <Z_S> are those of the tuples"""
+    from collections import Counter
+    from orquestra.quantum.runners.symbolic_simulator import SymbolicSimulator
+    n, k = case["n"], case["samples"]
+    c = mk_circuit(case)
+    pref = np.abs(ref_unitary(case["ops"], n)[:, 0]) ** 2
+    allkeys = list(itertools.product((0, 1), repeat=n))
+    support = [b for b in allkeys if pref[idx_of(b, n)] > 1e-12]
+    if case["rng"] == "script":
+        script = seams.Script([i % len(support) for i in range(97)])
+        with seams.owned_rng(script):
+            m = SymbolicSimulator(seed=7).run_and_measure(c, k)
+        picks = script.calls[0]
+    else:
+        m = SymbolicSimulator(seed=case["rng"]).run_and_measure(c, k)
+        picks = None
+    shots = [tuple(int(x) for x in s) for s in m.bitstrings]
+    if len(shots) < k:
+        return {"ok": False, "msg": "fewer samples than requested", "sig": "many:count"}
+    for j, sh in enumerate(shots):
+        if len(sh) != n or sh not in support:
+            return {"ok": False, "msg": "%d samples: sample %s has zero exact probability or wrong length" % (k, sh), "sig": "many:support"}
+        if picks is not None and abs(pref[idx_of(sh, n)] - picks["p"][picks["idx"][j]]) > 1e-9:
+            return {"ok": False, "msg": "%d samples: sample %d is %s, not the outcome the sampler picked" % (k, j, sh), "sig": "many:pick"}
+    ref_counts = Counter("".join(map(str, sh)) for sh in shots)
+    counts = m.get_counts()
+    if dict(counts) != dict(ref_counts):
+        return {"ok": False, "msg": "%d samples: count strings are not the sampled tuples written left to right" % k, "expected": str(dict(ref_counts))[:300], "observed": str(dict(counts))[:300], "sig": "many:counts"}
+    d = m.get_distribution().distribution_dict
+    if {key: round(v * len(shots)) for key, v in d.items()} != {tuple(int(ch) for ch in key): v for key, v in ref_counts.items()}:
+        return {"ok": False, "msg": "%d samples: empirical distribution is not counts / N keyed by the tuples" % k, "sig": "many:distribution"}
+    hist = Counter(shots)
+    for S in [S for r in range(n + 1) for S in itertools.combinations(range(n), r)]:
+        ev = m.get_expectation_values(z_op(S)).values[0]
+        exp = float(sum(F(v * rs.eig(sh, S)) for sh, v in hist.items()) / len(shots))
+        if abs(ev - exp) > 1e-12:
+            return {"ok": False, "msg": "%d samples: measured <Z_%s> is not the sample mean" % (k, list(S)), "expected": exp, "observed": float(ev), "sig": "many:measured"}
+    return {"ok": True, "nt": len(support) >= 1, "ops": 3 + 2 ** n, "out": "k%d" % k}
+
+
+FUNCS = {"many_samples": many_case, "symbolic": symbolic_case, "views": views_case, "real_rng": real_rng_case, "wide": wide_case}
 
 
 def run(run):
@@ -239,6 +308,20 @@ def run(run):
             for combo in itertools.product(range(len(B)), repeat=ln):
                 cases.append({"ops": prep + [B[i] for i in combo], "n": n, "bound": 1 if n < 4 else 0})
     secs[0] = Section("views", cases, views_case, horizon=900, desc=secs[0].desc + "; also after a product-state preparation, every sequence of <= 2 ops over CNOT (ordered pairs), SWAP, X, CZ")
+    sy = []
+    for n in ((3, 4) if thorough else (3,)):
+        for kk in (2, 3):
+            for q in itertools.permutations(range(n), kk):
+                for pre in ([q[0]] if kk == 2 else [q[0], q[1]], list(q[:-1]) + [q[-1]]):
+                    sy.append({"n": n, "q": list(q), "pre": pre})
+    if not thorough:
+        sy += [{"n": 4, "q": list(q), "pre": [q[0]]} for q in itertools.permutations(range(4), 2)]
+    secs.append(Section("symbolic", sy, symbolic_case, horizon=900, desc="a controlled RX(theta) on every ordered index tuple: symbolic state vector bound afterwards vs circuit bound first vs reference"))
+    mcirc = [{"ops": [{"gate": G("X"), "q": [0]}], "n": 2}, {"ops": [{"gate": G("X"), "q": [2]}, {"gate": G("RY", ANG[1]), "q": [0]}], "n": 3},
+             {"ops": [{"gate": G("RY", ANG[0]), "q": [0]}, {"gate": G("CNOT"), "q": [0, 2]}, {"gate": G("X"), "q": [1]}], "n": 3}, {"ops": [{"gate": G("X"), "q": [1]}, {"gate": G("X"), "q": [3]}], "n": 4}]
+    sizes = (999, 4097, 10001, 20000, 32769, 65537, 100000, 250000) if thorough else (999, 4097, 20000, 65537, 100000)
+    mc_ = [{**c, "samples": k, "rng": r} for c in mcirc for k in sizes for r in (("script", 0, 1) if thorough else ("script", 0))]
+    secs.append(Section("many_samples", mc_, many_case, horizon=900, chunk=1, desc="sample counts from 999 to 100000 (thorough 250000): scripted answers cycling through the support and the real generator"))
     wide = []
     for n in ((8, 9, 10) if thorough else (9,)):
         pats = [[q] for q in range(n)] + [[0, n - 2], [1, 2, n - 1]]
